@@ -592,6 +592,7 @@ package libinjection
 
 //@ func toUpperCmp
 //@   modifies nothing
+//@   ensures  [C06 C10] @ascii (forall j in [0, len(b)): b[j] < 128) ==> (result <==> (len(a) == len(b) && (forall j in [0, len(b)): a[j] == up(b[j]))))
 //@   ensures  @len2 result && len(a) >= 2 && a[0] < 128 ==> len(b) >= 2
 
 //@ func searchKeyword
@@ -1049,6 +1050,26 @@ package libinjection
 //@   loop 1 decreases length - i
 //@   ensures  [C14] @plain (forall i in [0, len(s.fingerprint)): s.fingerprint[i] == sqliTokenTypeBareWord || s.fingerprint[i] == sqliTokenTypeNumber) ==> !result
 
+// The whitelist decision table (C06 stage 2). fp = fingerprint, t0/t1/t2 = folded tokens, n = tokens lexed in the pass.
+//@ spec hasSpPassword(in string) bool = exists k in [0, len(in) - 10): in[k] == 's' && in[k+1] == 'p' && in[k+2] == '_' && in[k+3] == 'p' && in[k+4] == 'a' &&
+//@      in[k+5] == 's' && in[k+6] == 's' && in[k+7] == 'w' && in[k+8] == 'o' && in[k+9] == 'r' && in[k+10] == 'd'
+//@ spec fp3(s *sqliState, a int, b int, c int) bool = s.fingerprint[0] == a && s.fingerprint[1] == b && s.fingerprint[2] == c
+//@ spec wl2(s *sqliState) bool = s.fingerprint[1] == sqliTokenTypeUnion ? s.statsTokens != 2 :
+//@      (s.tokenVec[1].val[0] == '#' ? false :
+//@      ((catAt(s, 0) == sqliTokenTypeBareWord && catAt(s, 1) == sqliTokenTypeComment && s.tokenVec[1].val[0] != '/') ? false :
+//@      ((catAt(s, 0) == sqliTokenTypeNumber && catAt(s, 1) == sqliTokenTypeComment && s.tokenVec[1].val[0] != '/') ? true :
+//@      ((catAt(s, 0) == sqliTokenTypeNumber && catAt(s, 1) == sqliTokenTypeComment) ?
+//@           (s.statsTokens > 2 || s.input[s.tokenVec[0].len] <= 32 ||
+//@            (s.input[s.tokenVec[0].len] == '/' && s.input[s.tokenVec[0].len + 1] == '*') ||
+//@            (s.input[s.tokenVec[0].len] == '-' && s.input[s.tokenVec[0].len + 1] == '-')) :
+//@      !(s.tokenVec[1].len > 2 && s.tokenVec[1].val[0] == '-')))))
+//@ spec wl3(s *sqliState) bool = (fp3(s, 's', 'o', 's') || fp3(s, 's', '&', 's')) ?
+//@           (s.tokenVec[0].strOpen == 0 && s.tokenVec[2].strClose == 0 && s.tokenVec[0].strClose == s.tokenVec[2].strOpen) :
+//@      (((fp3(s, 's', '&', 'n') || fp3(s, 'n', '&', '1') || fp3(s, '1', '&', '1') || fp3(s, '1', '&', 'v') || fp3(s, '1', '&', 's')) && s.statsTokens == 3) ? false :
+//@      !(catAt(s, 1) == sqliTokenTypeKeyword && (s.tokenVec[1].len < 5 ||
+//@           !(up(s.tokenVec[1].val[0]) == 'I' && up(s.tokenVec[1].val[1]) == 'N' && up(s.tokenVec[1].val[2]) == 'T' && up(s.tokenVec[1].val[3]) == 'O'))))
+//@ spec wlTable(s *sqliState) bool = (len(s.fingerprint) > 1 && s.fingerprint[len(s.fingerprint) - 1] == sqliTokenTypeComment && hasSpPassword(s.input)) ||
+//@      (len(s.fingerprint) == 2 ? wl2(s) : (len(s.fingerprint) == 3 ? wl3(s) : true))
 //@ func (*sqliState).notWhitelist
 //@   requires s.length == len(s.input)
 //@   requires len(s.fingerprint) == 2 ==> wfT(s.tokenVec[0]) && wfT(s.tokenVec[1]) && s.fingerprint[1] == catAt(s, 1) &&
@@ -1058,6 +1079,8 @@ package libinjection
 //@   modifies nothing
 //@   justify  readsState
 //@   defines  [C12] @nwl result == NWL(stateOf(s))
+//@   ensures  [C06] @decision_table (len(s.fingerprint) == 3 && s.tokenVec[1].len >= 4 ==> s.tokenVec[1].val[0] < 128 && s.tokenVec[1].val[1] < 128 && s.tokenVec[1].val[2] < 128 && s.tokenVec[1].val[3] < 128) ==>
+//@                 (result <==> wlTable(s))
 
 // The documented cascade of parsing contexts (flags: 1 as-is, 2 inside ', 4 inside "; 8 ANSI, 16 MySQL)
 //@ spec passV(in string, f int) bool = BLK(FP(in, f)) && NWL(ST(in, f))
